@@ -114,6 +114,8 @@ pub trait LangInterpreter {
         let mut b = DigitString::new();
         let mut incomplete: bool = false;
         for token in group {
+            #[cfg(feature = "verif-hooks")]
+            crate::verif::yield_point(1);
             incomplete = match self.apply(token, &mut b) {
                 Err(Error::Incomplete) => true,
                 Ok(()) => false,
